@@ -8,7 +8,7 @@ from .common import TOL
 
 PROPERTY = "C05"
 LEVEL = "exploration"
-RUNS = {"quick": 700, "thorough": 30000}
+RUNS = {"quick": 2000, "thorough": 30000}
 RULE = ("seeded scenarios: a real client runs 1-3 block-wise transfers (PUT/POST/FETCH/GET) against an independent RFC 7959 "
         "reference server: request and response body lengths around every block boundary (0, 1, 15-17, 31-33, 1023-1025, "
         "1124/1125, multi-kB), server SZX 0-6 with optional mid-transfer reduction, client maximum block size 0-6, ETag "
